@@ -133,10 +133,10 @@ Print Assumptions C10_close_full_queue_refuted.
 
    With the complete role table (including the signal/panic path on which Vaxis.Close runs
    on the input goroutine, concurrently with the main goroutine) the rule holds for every
-   field of Vaxis, writer and ansi.Parser except the thirteen listed. *)
+   field of Vaxis, writer and ansi.Parser except the fourteen listed. *)
 Theorem C10_lockset_ok : forall (fn : Z * String.string) (a b : site),
   In fn field_names ->
-  ~ In (snd fn) ["Vaxis.console"; "Vaxis.parser"; "Vaxis.tw"; "Vaxis.appIDLast"; "Vaxis.caps"; "Vaxis.charCache";
+  ~ In (snd fn) ["Vaxis.console"; "Vaxis.parser"; "Vaxis.tw"; "Vaxis.appIDLast"; "Vaxis.pastePending"; "Vaxis.caps"; "Vaxis.charCache";
                  "Vaxis.cursorNext"; "Vaxis.cursorLast"; "Vaxis.closed"; "Vaxis.userCursorStyle"; "Vaxis.renders";
                  "Vaxis.elapsed"; "writer.buf"]%string ->
   In a sites -> In b sites -> s_field a = fst fn -> s_field b = fst fn ->
@@ -147,15 +147,19 @@ Proof. intros fn a b H1 H2 H3 H4 H5 H6. apply pair_ok_spec. exact (lockset_ok_fu
 Print Assumptions C10_lockset_ok.
 
 (* Without the signal/panic path (Options.NoSignals and no panic inside the input goroutine
-   or a spinner: no call of Close from inside the library) only three fields remain:
+   or a spinner: no call of Close from inside the library) only four fields remain:
      Vaxis.parser, Vaxis.tw       written by openTty in Resume while a previous input
                                   goroutine / a Query* caller may still read them
-                                  (finding resume-overlap)
+     Vaxis.pastePending           read and written without a lock by the input goroutine, of
+                                  which two can be alive after Resume (Suspend waits for the
+                                  parser, not for the input goroutine)
+                                  (these three: finding resume-overlap; the race detector
+                                  reports exactly these in the thorough tier)
      Vaxis.userCursorStyle        written by the input goroutine under mu, read by Suspend
                                   without it (finding suspend-reads-cursorstyle) *)
 Theorem C10_lockset_ok_nosignal : forall (fn : Z * String.string) (a b : site),
   In fn field_names ->
-  ~ In (snd fn) ["Vaxis.parser"; "Vaxis.tw"; "Vaxis.userCursorStyle"]%string ->
+  ~ In (snd fn) ["Vaxis.parser"; "Vaxis.tw"; "Vaxis.pastePending"; "Vaxis.userCursorStyle"]%string ->
   In a sites -> In b sites -> s_field a = fst fn -> s_field b = fst fn ->
   kinds_ok (s_kind a) (s_kind b) = true
   \/ (exists l, In l (site_locks L_nosig a) /\ In l (site_locks L_nosig b))
@@ -167,10 +171,10 @@ Print Assumptions C10_lockset_ok_nosignal.
    are the `_refuted` witnesses of the unrestricted statement), and nothing else has. *)
 Theorem C10_lockset_exclusions_exact :
   racy_fields tbl_full L_full =
-    ["Vaxis.console"; "Vaxis.parser"; "Vaxis.tw"; "Vaxis.appIDLast"; "Vaxis.caps"; "Vaxis.charCache";
+    ["Vaxis.console"; "Vaxis.parser"; "Vaxis.tw"; "Vaxis.appIDLast"; "Vaxis.pastePending"; "Vaxis.caps"; "Vaxis.charCache";
      "Vaxis.cursorNext"; "Vaxis.cursorLast"; "Vaxis.closed"; "Vaxis.userCursorStyle"; "Vaxis.renders";
      "Vaxis.elapsed"; "writer.buf"]%string
-  /\ racy_fields tbl_nosig L_nosig = ["Vaxis.parser"; "Vaxis.tw"; "Vaxis.userCursorStyle"]%string.
+  /\ racy_fields tbl_nosig L_nosig = ["Vaxis.parser"; "Vaxis.tw"; "Vaxis.pastePending"; "Vaxis.userCursorStyle"]%string.
 Proof. exact (conj racy_full racy_nosig). Qed.
 Print Assumptions C10_lockset_exclusions_exact.
 
